@@ -7,7 +7,7 @@ use std::path::Path;
 
 pub fn describe(sc: &Scenario) -> String {
     format!(
-        "role={:?} blk={} ws={} len={} ({} blocks) handshake={} repeat={} clean={} faults={} script={}",
+        "role={:?} blk={} ws={} len={} ({} blocks) handshake={} repeat={} clean={} faults={} script={} timeout={}s",
         sc.role,
         sc.blk,
         sc.ws,
@@ -17,7 +17,8 @@ pub fn describe(sc: &Scenario) -> String {
         sc.repeat,
         sc.clean,
         sc.nfaults(),
-        sc.script.len()
+        sc.script.len(),
+        sc.timeout_s
     )
 }
 
